@@ -18,7 +18,8 @@ func init() {
 			"(I) the request object stored by the proxy is the client's own, it is serialised with Request.Write (not WriteProxy), the agent parses it through a reader private to that reply and serves that very object; " +
 			"(T) no non-transparent stdlib handler (ServeMux, StripPrefix, TimeoutHandler, …) is built into the pass-through chain. " +
 			"(M) no pooled buffers on the request path. " +
-			"(X) no function that returns an *http.Response defers the cancel of a request context (the caller reads the body after the function returned).",
+			"(X) no function that returns an *http.Response defers the cancel of a request context (the caller reads the body after the function returned). " +
+			"(B) the pass-through path does not read, parse or replace the body; (R) the agent never reads the body of the request it forwards itself (a short Read is not end-of-body).",
 		Assumptions: []string{
 			"net/http Request.Write/ReadRequest and httputil.ReverseProxy (Director mode) preserve method, target, Host, end-to-end header values and body bytes",
 		},
@@ -285,6 +286,8 @@ func runC02(c *Ctx) {
 		c.Check("C02.B", "request-path:body-untouched", p, 0, bad == "" && inspected > 100, fmt.Sprintf("%d call sites on the request path inspected: none reads, parses, dumps or re-serialises the forwarded request (the shim endpoints read their own control messages only)", inspected), "on the pass-through path "+bad+": the backend no longer receives the body the client sent (consumed/parsed before forwarding)")
 	}
 
+	c.Rule("C02.R", "the agent does not read the request body it forwards", 1)
+	ruleRequestBodyUnread(c, p, "C02.R")
 	c.Rule("C02.X", "the context of a fetched request is not cancelled before its body was forwarded", 1)
 	ruleNoDeferredCancelOnReturnedResponse(c, p, "C02.X", "agent/utils", "agent")
 	c.Rule("C02.M", "request bytes live in call-owned buffers (no pooled memory on the request path)", 1)
